@@ -1124,7 +1124,7 @@ def rule_clip_flag(rep, fb, floor=14, name="FORWARD.clip-flag"):
 
 def rule_record_rebuild_length(rep, fb, floor=8, name="REBUILD.record-length"):
     r = rep.rule(name, "a RecordArray method that applies an (axis, depth) operation, fillna or a dtype conversion to each field and wraps the results in a new RecordArray passes an explicit length "
-                 "(length_ or the operation's own output length), unless every field was first trimmed to length(): the 4-argument constructor takes the minimum field length, and fields may be longer than the record array", floor=floor)
+                 "(length_ or the operation's own output length), unless every field was first trimmed to length() and a record array without fields is refused: the 4-argument constructor takes the minimum field length (0 for no fields), and fields may be longer than the record array", floor=floor)
     names = ("num", "rpad", "rpad_and_clip", "localindex", "combinations", "offsets_and_flattened", "fillna", "numbers_to_type", "reduce_next", "sort_next", "argsort_next", "getitem_next")
     for f in fb.lib_funcs(inst=False):
         if (f.get("cls") or "") != "RecordArray" or f["name"] not in names:
@@ -1132,13 +1132,17 @@ def rule_record_rebuild_length(rep, fb, floor=8, name="REBUILD.record-length"):
         n = 0
         trimmed = bool(find_all(f["body"], lambda k: k[0] == "mcall" and k[1] in ("getitem_range", "getitem_range_nowrap") and len(k[4]) == 2 and k[4][0] == ("const", 0)
                                 and find_all((k[4][1],), lambda m: (m[0] == "mcall" and m[1] == "length") or m == ("member", ("this",), "length_"))))
+        # the minimum over zero fields is 0: the 4-argument form is right only where a record array without fields has been refused
+        nofields = bool(find_all(f["body"], lambda k: k[0] == "if" and find_all((k[1],), lambda m: m[0] == "mcall" and m[1] == "empty" and "contents" in repr(m[3]))
+                                 and find_all(k[2], lambda m: m[0] == "throw")))
+        trimmed = trimmed and nofields
         for m in find_all(f["body"], lambda k: k[0] in ("make", "ctor") and str(k[1]) == "RecordArray"):
             n += 1
             key = "%s#RecordArray#%d" % (f["qual"], n)
             explicit = len(m[2]) >= 5
             r.check(explicit or trimmed, key, "%s:%d" % (f["file"], m[-1] if isinstance(m[-1], int) else f["line"]),
                     "%s wraps per-field results in a RecordArray without an explicit length although the fields are not trimmed to length(): fields longer than the record array leak extra records" % f["qual"],
-                    detail="explicit length" if explicit else "fields trimmed to length()")
+                    detail="explicit length" if explicit else "fields trimmed to length(), zero fields refused")
     return r.done()
 
 
@@ -1571,9 +1575,21 @@ def rule_rebuilt_simplified(rep, fb, floor=25, name="CANON.rebuilt-simplified"):
             for v in find_all((m[3],), lambda k: k[0] == "var"):
                 simplified.add(("var", v[1]))
         n = 0
+        # locals that hold (a part of) the result of the operation on the content: `pair = next.offsets_and_flattened(..)`, `flattened = pair.second`
+        opvars = set()
+        decls = find_all(f["body"], lambda k: k[0] == "decl" and k[3] is not None and "ContentPtr" in str(k[2]) or (k[0] == "decl" and k[3] is not None and "pair" in str(k[2])))
+        grew = True
+        while grew:
+            grew = False
+            for d in decls:
+                if d[1] in opvars:
+                    continue
+                if find_all((d[3],), lambda k: (k[0] == "mcall" and k[1] in methods) or (k[0] == "var" and k[1] in opvars)):
+                    opvars.add(d[1])
+                    grew = True
         for m in find_all(f["body"], lambda k: k[0] in ("make", "ctor") and _node_kind(k[1]) in ("option", "union", "indexed") and len(k[2]) >= 3):
             ops = find_all(tuple(m[2]), lambda k: k[0] == "mcall" and k[1] in methods + ("project", "carry"))
-            cvars = [a for a in m[2] if a[0] == "var" and a[1] in ("contents", "next", "out", "content", "nextcontent")]
+            cvars = [a for a in m[2] if a[0] == "var" and (a[1] in ("contents", "next", "out", "content", "nextcontent") or a[1] in opvars)]
             if not ops and not cvars:
                 continue
             n += 1
